@@ -979,6 +979,14 @@ EGLPNUM_TYPENAME_QSLIB_INTERFACE int EGLPNUM_TYPENAME_QSadd_cols (
 	rval = EGLPNUM_TYPENAME_ILLlib_addcols (p->lp, p->basis, num, cmatcnt, cmatbeg,
 												 cmatind, cmatval, obj, lower, upper, names,
 												 p->factorok);
+	if (rval)
+	{
+		/* the columns that precede the rejected one have been added: the stored
+		 * solution and the factorization do not belong to the problem any more */
+		drop_devex_info (p);
+		free_cache (p);
+		p->factorok = 0;
+	}
 	CHECKRVALG (rval, CLEANUP);
 
 	drop_devex_info (p);
@@ -1058,6 +1066,14 @@ EGLPNUM_TYPENAME_QSLIB_INTERFACE int EGLPNUM_TYPENAME_QSadd_ranged_rows (
 	rval = EGLPNUM_TYPENAME_ILLlib_addrows (p->lp, p->basis, num, rmatcnt, rmatbeg,
 												 rmatind, rmatval, rhs, sense, range,
 												 names, &(p->factorok));
+	if (rval)
+	{
+		/* the rows that precede the rejected one have been added: the stored
+		 * solution and the factorization do not belong to the problem any more */
+		drop_devex_info (p);
+		free_cache (p);
+		p->factorok = 0;
+	}
 	CHECKRVALG (rval, CLEANUP);
 
 	if (p->factorok == 1 && p->basis->rownorms)
@@ -1128,6 +1144,14 @@ EGLPNUM_TYPENAME_QSLIB_INTERFACE int EGLPNUM_TYPENAME_QSadd_rows (
 	rval = EGLPNUM_TYPENAME_ILLlib_addrows (p->lp, p->basis, num, rmatcnt, rmatbeg,
 												 rmatind, rmatval, rhs, sense, 0, names,
 												 &(p->factorok));
+	if (rval)
+	{
+		/* the rows that precede the rejected one have been added: the stored
+		 * solution and the factorization do not belong to the problem any more */
+		drop_devex_info (p);
+		free_cache (p);
+		p->factorok = 0;
+	}
 	CHECKRVALG (rval, CLEANUP);
 
 	if (p->factorok == 1 && p->basis->rownorms)
